@@ -235,6 +235,9 @@ def r3(ctx):
     # len field and the capacity check
     ag = one(b.aggregates(adt=r"signing_key::KSecretKey$"), "KSecretKey construction")
     fields = dict(zip(ag[2]["rv"]["fields"], ag[2]["rv"]["ops"]))
+    if "len" not in fields:
+        yield VIOL("C06-R3", "from_str/len-field-missing", "KSecretKey no longer stores the length of the secret (fields: %s): the stored bytes cannot be read back exactly (e.g. a secret ending in NUL bytes)" % sorted(fields), where=loc(ag[2]["span"]))
+        return
     lf = lin.form(fields["len"])
     if lf is None or lf_norm(lf) != lf_norm({"len(p%d)" % raw: 1, 1: 4}):
         yield VIOL("C06-R3", "from_str/len-field", "stored length is %s, not len(raw) + 4" % (lf_str(lf) if lf else "?"), where=loc(ag[2]["span"]))
